@@ -54,6 +54,9 @@ def run(ctx):
     rep, tier, info = ctx["rep"], ctx["tier"], ctx["info"]
     rnd = random.Random(ctx["seed"])
     progs = special_programs() + [wiregen.rand_program(rnd, max_depth=rnd.choice((1, 2, 3, 3, 5))) for _ in range(1500 if tier == "quick" else 60000)]
+    if ctx.get("replay"):
+        import json
+        progs = [json.load(open(ctx["replay"]))["replay"]["input"]]
     progs = list(dict.fromkeys(progs))
     impl, icr = vlib.run_lines(info["wire_h"], progs)
     model, mcr = vlib.run_lines(info["model"], progs)
